@@ -369,6 +369,8 @@ impl<'a> Drop for ProcessTransaction<'a> {
 
 fn connect<P: AsRef<Path>>(env: &Env, dbfile: P) -> rusqlite::Result<Connection> {
     let db = Connection::open(dbfile)?;
+    #[cfg(feature = "verif-hooks")]
+    crate::verif::watch_db(&db);
     db.busy_timeout(Duration::from_secs(60))?;
     db.execute("pragma synchronous = off", [])?;
     // Some old/broken versions of pysqlite on MacOS work badly with journal
